@@ -22,7 +22,6 @@
 #include "SigProc_FLP.h"
 #endif
 #include <float.h>
-extern int opus_verif_arch_cap __attribute__((weak));
 
 static long ncmp=0;
 /* the SSE2 PVQ search takes greedy decisions with approximate reciprocals: it may pick a slightly different vector. What is asserted
